@@ -70,7 +70,7 @@ CLAIMED = {
             "DESIGN.md §7 C12"),
     "C13": ("exploration",
             "property-based testing (proptest) + exhaustive sweeps (every bit of 12 base requests, every MAC length): mutated signed requests through the real front door against an independent RFC 8945 MAC/time reference",
-            "UPDATE and AXFR requests signed by hickory's client side go through VerifFrontDoor → Catalog → SqliteZoneHandler under the virtual clock: 5 request kinds × 8 key sets × 3 HMAC algorithms × clock positions around the fudge window × 12 mutation families (bit flips, byte sets, count edits, TSIG field re-encodings, MAC truncation to every length, TSIG removed/duplicated/not last). Soundness: zone changed or zone data in the reply ⇒ the harness's own RFC 8945 digest over the received octets verifies at full length with a configured key and |now−time| ≤ fudge. Completeness: the unmodified request takes effect, its reply verifies with the client verifier, and every single-bit flip of the reply is rejected. A further sub-property builds the handler the way the server binary does (SqliteZoneHandler::try_from_config: zone file, TSIG key files, journal), half of the cases after a restart that recovers the zone from the journal, and judges with the same oracle.",
+            "UPDATE and AXFR requests signed by hickory's client side go through VerifFrontDoor → Catalog → SqliteZoneHandler under the virtual clock: 5 request kinds × 8 key sets × 3 HMAC algorithms × clock positions around the fudge window × 12 mutation families (bit flips, byte sets, count edits, TSIG field re-encodings, MAC truncation to every length, TSIG removed/duplicated/not last). Soundness: zone changed or zone data in the reply ⇒ the harness's own RFC 8945 digest over the received octets verifies at full length with a configured key and |now−time| ≤ fudge. Completeness: the unmodified request takes effect, its reply verifies with the client verifier, and every single-bit flip of the reply is rejected. A further sub-property builds the handler the way the server binary does (SqliteZoneHandler::try_from_config: zone file, TSIG key files, journal), half of the cases after a restart that recovers the zone from the journal, and judges with the same oracle. Client side: signed requests leave through the real DnsMultiplexer::with_signer and through the real UdpClientStream::with_signer (simulated runtime, reply = sequence of 1-3 datagrams); the server's reply comes back unmodified or edited (bit flip, byte set, TSIG removed, re-signed with another secret / request MAC, trailing octets): whatever the caller receives as Ok must carry the RFC 8945 5.3 response MAC, and the unmodified reply must arrive.",
             "Trusts refm/tsig_ref.rs and ring's HMAC. Header ID, TSIG class/TTL, key-name case and octets after the last counted record are not covered by the MAC by design and modelled as such. The four findings of the first runs are repaired in /repo; none is open.",
             "DESIGN.md §7 C13"),
     "C14": ("fault_enumeration",
@@ -80,12 +80,12 @@ CLAIMED = {
             "DESIGN.md §7 C14"),
     "C15": ("exploration",
             "property-based testing (proptest): insert/get/clear histories with explicit instants under the virtual clock against a pure TTL-cache reference model",
-            "Histories of ≤30 (thorough 40) operations over 3 queries with nanosecond times (steps of 0 / sub-second / seconds / jumps to the model's expiry ±{0,1 ns,0.5 s,1 s}) × TtlConfig built through its serde form (default / per-type, min>ttl, max<ttl, min=max, 0). Every hit must be the most recent cacheable insert, within its lifetime L, with every TTL = per-type clamped − ⌊elapsed⌋ floored at 0 and non-increasing; transient errors never come back. The hit ratio on certainly-live entries is measured (100 % in quick) so the check cannot go vacuous. clear/clear_query and the alias path (CNAME chain and target in one upstream response, preserve_intermediates on/off) are exercised through CachingClient::lookup over a scripted upstream: the entry must not be served after the smallest TTL of the chain.",
+            "Histories of ≤30 (thorough 40) operations over 3 queries with nanosecond times (steps of 0 / sub-second / seconds / jumps to the model's expiry ±{0,1 ns,0.5 s,1 s}) × TtlConfig built through its serde form (default / per-type, min>ttl, max<ttl, min=max, 0). Every hit must be the most recent cacheable insert, within its lifetime L, with every TTL = per-type clamped − ⌊elapsed⌋ floored at 0 and non-increasing; transient errors never come back. The hit ratio on certainly-live entries is measured (100 % in quick) so the check cannot go vacuous. clear/clear_query and the alias path (CNAME chain and target in one upstream response, preserve_intermediates on/off) are exercised through CachingClient::lookup over a scripted upstream: the entry must not be served after the smallest TTL of the chain. recursor_expiry carries the clauses to the recursor (which shares the cache): a query is resolved twice on an honest simulated internet with a pause of 0 s..3 h in virtual time; what the second resolution returns without any upstream datagram must have counted down by the pause, nothing after its TTL (3600 s), no negative answer after its negative TTL (300 s).",
             "Trusts refm/cache_ref.rs. Where the statement admits two readings of L (CNAME bounds vs query-type bounds) the weaker bound is asserted and the difference counted. None is always acceptable (eviction).",
             "DESIGN.md §7 C15"),
     "C16": ("exploration",
             "schedule enumeration + property-based testing (proptest) on a simulated runtime: every arrival order of ≤4 forged/genuine datagrams enumerated, longer schedules and multiplexer op histories sampled; oracle = validity predicate on which datagram may complete a query + ID-routing model",
-            "The real UdpClientStream runs on the harness's discrete-event runtime; every datagram is built from the bytes hickory actually sent. All sequences of ≤4 datagrams over 9 forged/genuine kinds × 0x20 on/off are enumerated; longer schedules (≤3 transmissions, ≤10 datagrams each) are sampled. Ok ⇒ byte-identical to a delivered datagram from the queried addr:port with the wire ID and asked questions (case-exact under 0x20), among the first three read on its socket; otherwise error/timeout. The real DnsMultiplexer is polled by hand over a scripted stream: in-flight IDs pairwise distinct, responses routed by ID only, unknown IDs dropped, close/error fails every pending request, timeouts reported.",
+            "The real UdpClientStream runs on the harness's discrete-event runtime; every datagram is built from the bytes hickory actually sent. All sequences of ≤4 datagrams over 9 forged/genuine kinds (sampled schedules use 15, among them the asked question repeated in another letter case) × 0x20 on/off are enumerated; longer schedules (≤3 transmissions, ≤10 datagrams each) are sampled. Ok ⇒ byte-identical to a delivered datagram from the queried addr:port with the wire ID and asked questions (case-exact under 0x20), among the first three read on its socket; otherwise error/timeout. The real DnsMultiplexer is polled by hand over a scripted stream: in-flight IDs pairwise distinct, responses routed by ID only, unknown IDs dropped, close/error fails every pending request, timeouts reported.",
             "The harness owns the schedule (delivery orders, not thread interleavings). Malformed datagrams from the right source may be skipped or end the query in an error (statement is silent).",
             "DESIGN.md §7 C16"),
     "C17": ("exploration",
@@ -105,8 +105,8 @@ CLAIMED = {
             "DESIGN.md §7 C19"),
     "C20": ("exploration",
             "property-based testing (proptest): record sets rendered by an independent RFC 1035 §5 master-file printer with per-line random layout, parsed by hickory and compared with the denoted records; mutated/garbage texts for robustness under a CPU-time watchdog",
-            "Record sets of 22 parser-supported types are printed with randomised layout (absolute/relative/@/inherited owners, TTL explicit/$TTL/previous, class present/absent, $ORIGIN switches, comments, blank lines, parenthesised continuation, quoted/unquoted strings, escaped dots/quotes/backslashes, tabs, CRLF, missing final newline, long runs) and must load to exactly the denoted (owner, class, type, TTL, RDATA) set. Garbage (mutated renderings, token soup, unbalanced quotes/parens, huge numbers, $INCLUDE, random bytes) must give Ok or Err, never a panic or a spin.",
-            "Trusts refm/zonefile_printer.rs. A failing case is attributed to a layout feature only if the clean rendering loads correctly and the feature alone still breaks it; eleven known findings are excluded by such signatures, everything else is a VIOLATION.",
+            "Record sets of 22 parser-supported types are printed with randomised layout (absolute/relative/@/inherited owners, TTL explicit/$TTL/previous, class present/absent, $ORIGIN switches, comments, blank lines, parenthesised continuation, quoted/unquoted strings, escaped dots/quotes/backslashes, tabs, CRLF, missing final newline, long runs) and must load to exactly the denoted (owner, class, type, TTL, RDATA) set; names padded to exactly 255 octets are included. include_layout moves runs of lines into $INCLUDEd files (one level or nested, relative/absolute path, $ORIGIN switches inside, with/without final newline) written to a scratch directory and demands the same record set (RFC 1035 5.1: the parent's origin is unaffected); a self-including file must be refused. Garbage (mutated renderings, token soup, unbalanced quotes/parens, huge numbers, $INCLUDE, random bytes) must give Ok or Err, never a panic or a spin.",
+            "Trusts refm/zonefile_printer.rs. A failing case is attributed to a layout feature only if the clean rendering loads correctly and the feature alone still breaks it; the known findings are excluded by such signatures, everything else is a VIOLATION.",
             "DESIGN.md §7 C20"),
 }
 
